@@ -46,6 +46,15 @@ type c21Case struct {
 	Self string   `json:"self,omitempty"`
 	Via  string   `json:"via,omitempty"`
 	Have []uint64 `json:"have,omitempty"`
+	// scenario: real servers: N0 nodes node0.. (node0 coordinator), then the steps
+	N0    int        `json:"n0,omitempty"`
+	Steps []realStep `json:"steps,omitempty"`
+}
+
+// realStep is one resize of a scenario on real servers.
+type realStep struct {
+	Act  string `json:"act"`  // "add" | "remove"
+	Node string `json:"node"` // node id
 }
 
 type c21Env struct {
@@ -317,7 +326,7 @@ func (env *c21Env) events(c *c21Case, cn int) map[string]interface{} {
 				}
 			}
 		}
-		_, to := env.clusters(c, h)
+		from, to := env.clusters(c, h)
 		to.SetSelf(c.Self)
 		self := to.NodeByID(c.Self)
 		shards := idx.AvailableShards().Slice()
@@ -326,14 +335,47 @@ func (env *c21Env) events(c *c21Case, cn int) map[string]interface{} {
 			own = append(own, nonNil(to.ShardNodes("c", s)))
 		}
 		before := fragList(h)
-		if c.Via == "state" {
+		ids := to.NodeIDs()
+		switch c.Via {
+		case "state":
 			to.ForceState("RESIZING")
 			to.SetState("NORMAL")
-		} else if err := to.CleanHolder(self, h); err != nil {
-			panic(err)
+		case "merge":
+			// the follower's path: this node still has the old member list and is RESIZING;
+			// the coordinator's final ClusterStatus (new members, NORMAL) arrives
+			coord := ""
+			for _, id := range ids {
+				if id != c.Self {
+					coord = id
+					break
+				}
+			}
+			d, err := os.MkdirTemp(env.dir, "topo-")
+			if err != nil {
+				panic(err)
+			}
+			from.SetPath(d)
+			from.SetSelf(c.Self)
+			from.SetCoordinator(coord)
+			from.ForceState("RESIZING")
+			var nodes []*pilosa.Node
+			for _, id := range ids {
+				n := env.node(id)
+				n.IsCoordinator = id == coord
+				nodes = append(nodes, n)
+			}
+			if err := from.MergeClusterStatus("NORMAL", nodes); err != nil {
+				panic(err)
+			}
+			os.RemoveAll(d)
+			ids = from.NodeIDs()
+		default:
+			if err := to.CleanHolder(self, h); err != nil {
+				panic(err)
+			}
 		}
 		after := fragList(h)
-		return map[string]interface{}{"ev": "clean", "c": cn, "ids": to.NodeIDs(), "r": c.R, "self": c.Self, "via": c.Via,
+		return map[string]interface{}{"ev": "clean", "c": cn, "ids": ids, "r": c.R, "self": c.Self, "via": c.Via,
 			"ix": []interface{}{map[string]interface{}{"name": "c", "shards": shards, "own": own}}, "before": before, "after": after}
 	}
 	panic("unknown kind " + c.Kind)
@@ -456,6 +498,141 @@ func realResize(t testing.TB, c *c21Case, cn int) (ev map[string]interface{}, sk
 		"other": len(fragList(pilosa.VerifClusterHolderOfAPI(m1.API)))}, ""
 }
 
+// realScenario runs completed resizes on real in-process servers: c.N0 nodes with c.R
+// replicas and data in c.Have (2 time fields x 2 views), then each step adds a node over
+// gossip or removes one through the coordinator's API.RemoveNode. After every resize, when
+// all remaining nodes are NORMAL with the new member list, one "resized" event per remaining
+// node logs its fragments before and after, the fragments that existed anywhere before, and
+// the owners by its own cluster object. skipped != "" when the servers did not get there in
+// time (not a verdict).
+func realScenario(t testing.TB, c *c21Case, cn int) (evs []map[string]interface{}, skipped string) {
+	clus := test.MustNewCluster(t, c.N0)
+	nodes := map[string]*test.Command{}
+	var dirs []string
+	defer func() {
+		for _, m := range nodes {
+			m.Close()
+		}
+		for _, d := range dirs {
+			os.RemoveAll(d)
+		}
+	}()
+	for k, m := range clus {
+		m.Config.Cluster.ReplicaN = c.R
+		dirs = append(dirs, m.Config.DataDir)
+		nodes[fmt.Sprintf("node%d", k)] = m
+	}
+	if err := clus.Start(); err != nil {
+		return nil, "cluster did not start: " + err.Error()
+	}
+	m0 := clus[0]
+	settled := func(n int) string {
+		deadline := time.Now().Add(45 * time.Second)
+		for {
+			ok := len(nodes) == n
+			for _, m := range nodes {
+				if m.API.State() != "NORMAL" || len(pilosa.VerifClusterOfAPI(m.API).NodeIDs()) != n {
+					ok = false
+				}
+			}
+			if ok {
+				time.Sleep(150 * time.Millisecond) // cleanup runs under the state change; let followers finish
+				return ""
+			}
+			if time.Now().After(deadline) {
+				st := ""
+				for id, m := range nodes {
+					st += fmt.Sprintf(" %s:%s%v", id, m.API.State(), pilosa.VerifClusterOfAPI(m.API).NodeIDs())
+				}
+				return "resize not completed in 45s:" + st
+			}
+			time.Sleep(20 * time.Millisecond)
+		}
+	}
+	if why := settled(c.N0); why != "" {
+		return nil, why
+	}
+	ctx := context.Background()
+	if _, err := m0.API.CreateIndex(ctx, "c", pilosa.IndexOptions{}); err != nil {
+		return nil, "create index: " + err.Error()
+	}
+	for _, fn := range c21Fields {
+		if _, err := m0.API.CreateField(ctx, "c", fn, pilosa.OptFieldTypeTime(pilosa.TimeQuantum("Y"))); err != nil {
+			return nil, "create field: " + err.Error()
+		}
+		for _, s := range c.Have {
+			q := fmt.Sprintf("Set(%d, %s=1, 2019-03-04T00:00)", s*pilosa.ShardWidth+1, fn)
+			if _, err := m0.API.Query(ctx, &pilosa.QueryRequest{Index: "c", Query: q}); err != nil {
+				return nil, "set: " + err.Error()
+			}
+		}
+	}
+	key := func(f []interface{}) string { return fmt.Sprint(f...) }
+	for si, st := range c.Steps {
+		before := map[string][][]interface{}{}
+		all := [][]interface{}{}
+		seen := map[string]bool{}
+		for id, m := range nodes {
+			before[id] = fragList(pilosa.VerifClusterHolderOfAPI(m.API))
+			for _, f := range before[id] {
+				if !seen[key(f)] {
+					seen[key(f)] = true
+					all = append(all, f)
+				}
+			}
+		}
+		sort.Slice(all, func(a, b int) bool { return key(all[a]) < key(all[b]) })
+		if st.Act == "add" {
+			m := test.NewCommandNode(false)
+			dirs = append(dirs, m.Config.DataDir)
+			if err := os.WriteFile(filepath.Join(m.Config.DataDir, ".id"), []byte(st.Node), 0o600); err != nil {
+				return evs, err.Error()
+			}
+			m.Config.Gossip.Port = "0"
+			m.Config.Gossip.Seeds = []string{m0.GossipAddress()}
+			m.Config.Cluster.ReplicaN = c.R
+			if err := m.Start(); err != nil {
+				return evs, "joining node did not start: " + err.Error()
+			}
+			nodes[st.Node] = m
+			before[st.Node] = [][]interface{}{}
+		} else {
+			gone := nodes[st.Node]
+			if _, err := m0.API.RemoveNode(st.Node); err != nil {
+				return evs, "RemoveNode: " + err.Error()
+			}
+			delete(nodes, st.Node)
+			defer gone.Close()
+		}
+		if why := settled(len(nodes)); why != "" {
+			return evs, why
+		}
+		ids := make([]string, 0, len(nodes))
+		for id := range nodes {
+			ids = append(ids, id)
+		}
+		sort.Strings(ids)
+		for _, id := range ids {
+			m := nodes[id]
+			vc := pilosa.VerifClusterOfAPI(m.API)
+			h := pilosa.VerifClusterHolderOfAPI(m.API)
+			shards := []uint64{}
+			own := [][]string{}
+			if idx := h.Index("c"); idx != nil {
+				shards = idx.AvailableShards().Slice()
+			}
+			for _, s := range shards {
+				own = append(own, nonNil(vc.ShardNodes("c", s)))
+			}
+			evs = append(evs, map[string]interface{}{"ev": "resized", "c": cn, "step": si, "act": st.Act, "node": st.Node,
+				"ids": vc.NodeIDs(), "r": c.R, "self": id,
+				"ix":     []interface{}{map[string]interface{}{"name": "c", "shards": shards, "own": own}},
+				"before": before[id], "after": fragList(h), "all": all})
+		}
+	}
+	return evs, ""
+}
+
 func subsetOf(mask int) []uint64 {
 	var s []uint64
 	for b := 0; b < 8; b++ {
@@ -539,6 +716,28 @@ func (env *c21Env) c21Cases(thorough bool, emit func(*c21Case)) {
 					newIDs = append(newIDs, a.node)
 				}
 				sort.Strings(newIDs)
+				// the follower's path (mergeClusterStatus) depends on the action, not only on the
+				// resulting cluster: a surviving non-coordinator learns the end of the resize
+				if len(newIDs) >= 2 && (thorough || (ac+r)%6 == 0 || (a.act == "remove" && r >= 2 && (ac+r)%4 == 1)) {
+					survivors := newIDs
+					if a.act == "add" { // the joiner has no old member list of its own here
+						survivors = nil
+						for _, id := range newIDs {
+							if id != a.node {
+								survivors = append(survivors, id)
+							}
+						}
+					}
+					if !thorough && len(survivors) > 0 {
+						survivors = []string{survivors[rng.Intn(len(survivors))]}
+					}
+					for _, self := range survivors {
+						c := base
+						c.Kind, c.Self, c.Via = "clean", self, "merge"
+						c.Have = subsetOf(63)
+						emit(&c)
+					}
+				}
 				ck := fmt.Sprint(newIDs, r, hasher)
 				if len(newIDs) > 0 && !seenClean[ck] {
 					seenClean[ck] = true
@@ -552,7 +751,7 @@ func (env *c21Env) c21Cases(thorough bool, emit func(*c21Case)) {
 						if (combo+k)%3 == 0 {
 							c.Via = "direct"
 						}
-						c.Have = subsetOf(1 + rng.Intn(63) | 1) // shards 0..5, always shard 0
+						c.Have = subsetOf(63) // fragments of shards 0..5 exist before every cleanup (replayable)
 						emit(&c)
 					}
 				}
@@ -562,7 +761,11 @@ func (env *c21Env) c21Cases(thorough bool, emit func(*c21Case)) {
 }
 
 func c21Failure(c *c21Case, symptom, detail string) behav.Failure {
-	return behav.Failure{Match: map[string]string{"symptom": symptom, "kind": c.Kind, "act": c.Act, "n": fmt.Sprint(len(c.Old)),
+	n := len(c.Old)
+	if n == 0 {
+		n = c.N0
+	}
+	return behav.Failure{Match: map[string]string{"symptom": symptom, "kind": c.Kind, "act": c.Act, "n": fmt.Sprint(n),
 		"r": fmt.Sprint(c.R), "hasher": c.Hasher}, Detail: detail, Replay: c}
 }
 
@@ -614,6 +817,32 @@ func TestC21(t *testing.T) {
 		env := newC21Env(c.Seed, dir)
 		defer env.close()
 		res.Evaluations = 1
+		if c.Kind == "scenario" {
+			var evs []map[string]interface{}
+			var skipped string
+			pv, stack := behav.Protect(func() { evs, skipped = realScenario(t, &c, 0) })
+			if pv != nil && behav.PanicInCode(stack) {
+				res.Fail(c21Failure(&c, "panic", fmt.Sprintf("panic: %v\n%s", pv, tail(stack, 1800))))
+				return
+			}
+			if pv != nil || len(evs) == 0 {
+				res.SetInconclusive(fmt.Sprintf("replay: the real scenario did not complete: %v %s", pv, skipped))
+				return
+			}
+			var lines [][]byte
+			for _, ev := range evs {
+				lines = append(lines, mustJSON(ev))
+			}
+			ok, prefix, out, err := tlcValidate("TraceResizePlanC21", lines)
+			if err != nil {
+				res.SetInconclusive("trace validation: " + err.Error() + "\n" + tail(out, 1500))
+				return
+			}
+			if !ok {
+				res.Fail(c21Failure(&c, "trace_rejected", "rejected by TraceResizePlanC21: "+tail(string(lines[minInt(prefix, len(lines)-1)]), 1500)))
+			}
+			return
+		}
 		ev, fail, harness := run(env, &c, 0)
 		if harness != "" {
 			res.SetInconclusive(harness)
@@ -685,6 +914,9 @@ func TestC21(t *testing.T) {
 		if c.Kind == "clean" && len(ev["after"].([][]interface{})) < len(ev["before"].([][]interface{})) {
 			res.Cover("clean:removed_some")
 		}
+		if c.Kind == "clean" {
+			res.Cover("clean:via_" + c.Via)
+		}
 		if p, ok := ev["p"].([]c21Group); ok && len(p) > 0 {
 			if distinct.Add(behav.JSON(c)) {
 				res.CountNontrivial()
@@ -723,6 +955,47 @@ func TestC21(t *testing.T) {
 			res.Cover("event:clean_real")
 			if len(ev["after"].([][]interface{})) < len(ev["before"].([][]interface{})) {
 				res.Cover("clean_real:removed_some")
+			}
+		}
+	}
+	// completed resizes on real multi-node clusters, including node removal
+	scen := []c21Case{
+		{Kind: "scenario", Seed: behav.Seed(), N0: 3, R: 2, Have: []uint64{0, 1, 2, 3, 4, 5}, Steps: []realStep{{"remove", "node2"}}},
+		{Kind: "scenario", Seed: behav.Seed(), N0: 2, R: 2, Have: []uint64{0, 1, 2, 3, 4, 5}, Steps: []realStep{{"add", "node1b"}, {"remove", "node1"}}},
+	}
+	if behav.Thorough() {
+		scen = append(scen,
+			c21Case{Kind: "scenario", Seed: behav.Seed(), N0: 4, R: 2, Have: []uint64{0, 1, 2, 3, 4, 5, 6, 7}, Steps: []realStep{{"remove", "node1"}, {"remove", "node3"}}},
+			c21Case{Kind: "scenario", Seed: behav.Seed(), N0: 3, R: 3, Have: []uint64{0, 2, 5}, Steps: []realStep{{"remove", "node1"}, {"add", "aaa"}}},
+			c21Case{Kind: "scenario", Seed: behav.Seed(), N0: 4, R: 3, Have: []uint64{1, 3, 4, 6}, Steps: []realStep{{"remove", "node2"}}})
+	}
+	if maxCases == 1<<30 || os.Getenv("VERIF_REAL") != "" {
+		tw.NewChunk()
+		for k := range scen {
+			c := &scen[k]
+			c.Act, c.Node, c.Hasher = c.Steps[0].Act, c.Steps[0].Node, "jump"
+			cn := tw.Case(c)
+			var evs []map[string]interface{}
+			var skipped string
+			pv, stack := behav.Protect(func() { evs, skipped = realScenario(t, c, cn) })
+			if pv != nil {
+				if behav.PanicInCode(stack) {
+					res.Fail(c21Failure(c, "panic", fmt.Sprintf("panic: %v\n%s", pv, tail(stack, 1800))))
+				} else {
+					skipped = fmt.Sprintf("harness panic: %v", pv)
+				}
+			}
+			if skipped != "" {
+				res.Cover("real_scenario_incomplete")
+				res.Coverage["real_scenario_skip_reason"] = tail(skipped, 400)
+			}
+			for _, ev := range evs {
+				tw.Event(ev)
+				res.CountEval()
+				res.Cover("event:resized_" + ev["act"].(string))
+				if len(ev["after"].([][]interface{})) > len(ev["before"].([][]interface{})) {
+					res.Cover("resized:received_some")
+				}
 			}
 		}
 	}
